@@ -390,9 +390,12 @@ impl LicenseParagraph {
 
     /// Name of the license
     pub fn name(&self) -> Option<String> {
-        self.0
-            .get("License")
-            .and_then(|x| x.split_once('\n').map(|(name, _)| name.to_string()))
+        // Same reading as `License::name`: the first line, also when no text follows it.
+        self.0.get("License").and_then(|x| match x.split_once('\n') {
+            Some((name, _)) if name.is_empty() => None,
+            Some((name, _)) => Some(name.to_string()),
+            None => Some(x.to_string()),
+        })
     }
 
     /// Text of the license
